@@ -8,20 +8,22 @@
      core/workflow/taskrole.go       updateState: only a critical task role forwards to its parent
      core/workflow/parentadapter.go  updateState: non-blocking send to every subscriber (a rendezvous
                                      that is dropped when the receiver is not in its select)
-     core/environment/environment.go subscribeToWfState: the watcher goroutine (skips its loop when the
-                                     workflow is already ERROR at subscription; single shot; 500 ms timer;
+     core/environment/environment.go subscribeToWfState: the watcher goroutine (a workflow already in
+                                     ERROR at subscription is handled like a notification - fix
+                                     C03-a; single shot; 500 ms timer;
                                      GO_ERROR, forced if refused; STOP to the tasks still RUNNING),
                                      the run-end bookkeeping of the before_/after_ callbacks of
                                      START_ACTIVITY, STOP_ACTIVITY and GO_ERROR
-     core/environment/manager.go     handleDeviceEvent(TASK_INTERNAL_ERROR): only in RUNNING: role
-                                     UpdateState(ERROR), then TryTransition(STOP_ACTIVITY), no criticality check;
+     core/environment/manager.go     handleDeviceEvent(TASK_INTERNAL_ERROR): role UpdateState(ERROR) in
+                                     any state; TryTransition(STOP_ACTIVITY) only for a critical task of
+                                     a RUNNING environment (fix C03-cd);
                                      CreateEnvironment: subscribeToWfState after the CONFIGURE of the creation
      core/server.go                  ControlEnvironment (error -> GO_ERROR -> forced ERROR)
    The role tree and its update walk are RoleTree.v's (property C11); the classification of a task
    command is TaskCmd.v's (property C02).
    Concurrency is a schedule: a list of [action]s; every theorem of props/C03.v quantifies over all
    of them.  Definitions only; lemmas live in proofs/Watcher_proofs.v. *)
-From Verif Require Import Common RoleTree TaskCmd.
+From Verif Require Import Common RoleTree TaskCmd Gen_LeafHandover.
 Open Scope N_scope.
 
 Definition path := list nat.
@@ -38,7 +40,7 @@ Inductive wst :=
 | WBusy         (* took a notification that asks for nothing, between two selects *)
 | WTimer        (* took ERROR: loop left, subscription removed, 500 ms timer armed *)
 | WFired        (* the timer callback ran *)
-| WGone.        (* loop never entered (workflow ERROR at subscription) or left on DONE *)
+| WGone.        (* loop never entered (workflow DONE at subscription) or left on DONE *)
 Scheme Equality for wst.
 
 (* run_end_time_ms / run_end_completion_time_ms: not defined, "", a time stamp *)
@@ -49,7 +51,10 @@ Scheme Equality for runv.
 Inductive pupd :=
 | PState (i : nat) (v : state)     (* updateTaskState: task.state := v; role.UpdateState(v) *)
 | PRole (i : nat) (v : state)      (* role.UpdateState(v) alone (TASK_INTERNAL_ERROR) *)
-| PStatus (i : nat) (v : status).  (* task.status := v; role.UpdateStatus(v) *)
+| PStatus (i : nat) (v : status)   (* task.status := v; role.UpdateStatus(v) *)
+| PFwd (i : nat) (v : state).      (* the task role has merged v into its own cache (and published its
+                                      role event) and is about to hand v - the value it was called
+                                      with, not its cache - to its parent *)
 
 (* what the environment publishes / sends, in order *)
 Inductive lev :=
@@ -139,12 +144,64 @@ Definition status_update (i : nat) (v : status) (s : wsys) : wsys :=
   | None => s
   end.
 
+(* taskRole.updateState from the hand-over on: the walk of RoleTree.upd_state without the write of
+   the leaf's cache.  The leaf hands the value it was called with (taskrole.go / callrole.go:
+   `t.parent.updateState(s)`, tied to the source by the translator leafhandover, see
+   [leaf_hands_incoming]), whatever its cache holds by now. *)
+Fixpoint fwd_state (p : path) (v : state) (t : rtree) {struct p} : rtree * option state :=
+  match p, t with
+  | [], Leaf c _ _ => (t, if c then Some v else None)
+  | i :: p', Agg s x cs =>
+      match nth_error cs i with
+      | Some c =>
+          let (c', fwd) := fwd_state p' v c in
+          let cs' := replace_nth i c' cs in
+          match fwd with
+          | Some inc => let s' := merge_state s inc cs' in (Agg s' x cs', Some s')
+          | None => (Agg s x cs', None)
+          end
+      | None => (t, None)
+      end
+  | _, _ => (t, None)
+  end.
+
+Definition role_forward (i : nat) (v : state) (s : wsys) : wsys :=
+  match nth_error (w_paths s) i with
+  | Some p =>
+      let (t', fwd) := fwd_state p v (w_tree s) in
+      let s' := set_tree t' s in
+      match fwd with
+      | Some r => set_watch (deliver r (w_watch s)) s'
+      | None => s'
+      end
+  | None => s
+  end.
+
+(* the first half of a role update: only the leaf's own cache (SafeState.merge on a task role
+   overwrites) *)
+Definition leaf_write (i : nat) (v : state) (s : wsys) : wsys :=
+  match nth_error (w_paths s) i with
+  | Some p => set_tree (map_at p (write_leaf_f v) (w_tree s)) s
+  | None => s
+  end.
+
 Definition apply_upd (u : pupd) (s : wsys) : wsys :=
   match u with
   | PState i v => role_update i v (set_tst (replace_nth i v (w_tst s)) s)
   | PRole i v => role_update i v s
   | PStatus i v => status_update i v s
+  | PFwd i v => role_forward i v s
   end.
+
+(* what the translator found in taskRole / callRole updateState and updateStatus: (calls of the
+   parent's update, of these with the function's own parameter as argument, assignments to that
+   parameter).  The leaf hands over what it was called with iff there is such a call, every call
+   passes the parameter and the parameter is never reassigned. *)
+Definition hands_param (f : N * N * N) : bool :=
+  match f with (calls, with_param, assigned) => N.leb 1 calls && N.eqb with_param calls && N.eqb assigned 0 end.
+Definition leaf_hands_incoming : bool :=
+  hands_param task_state_handover && hands_param task_status_handover &&
+  hands_param call_state_handover && hands_param call_status_handover.
 
 (* ------------------------------------------------------------------ *)
 (* 3. Environment side: GO_ERROR, task commands                        *)
@@ -216,7 +273,7 @@ Definition finish_cmd (fallback : bool) (e : cev) (oc : list outc) (s : wsys) : 
 Inductive fault :=
 | FDead (vs : list nat)     (* terminal Mesos status of an owned task ([v]), executor lost ([v]),
                                agent lost (every task on it): state ERROR and status INACTIVE each *)
-| FInternal (v : nat).      (* DeviceEvent TASK_INTERNAL_ERROR from task v *)
+| FInternal (v : nat).      (* DeviceEvent TASK_INTERNAL_ERROR from task v: role state ERROR *)
 
 Definition fault_victims (f : fault) : list nat :=
   match f with FDead vs => vs | FInternal v => [v] end.
@@ -225,9 +282,11 @@ Definition do_fault (f : fault) (s : wsys) : wsys :=
   match f with
   | FDead vs => add_pend (flat_map (fun i => [PState i ERROR; PStatus i INACTIVE]) vs) s
   | FInternal v =>
-      if estate_beq (w_env s) E_RUNNING
+      (* handleDeviceEvent (repaired, fix C03-cd): the role goes to ERROR in any state; the run is
+         stopped only for a critical task of a RUNNING environment *)
+      if crit_of s v && estate_beq (w_env s) E_RUNNING
       then set_istop (S (w_istop s)) (add_pend [PRole v ERROR] s)
-      else s
+      else add_pend [PRole v ERROR] s
   end.
 
 (* ------------------------------------------------------------------ *)
@@ -236,7 +295,12 @@ Definition do_fault (f : fault) (s : wsys) : wsys :=
 
 Inductive action :=
 | AFault (f : fault)
-| AUpd (k : nat)              (* the k-th pending update runs *)
+| AUpd (k : nat)              (* the k-th pending update runs (to its end) *)
+| ALeafWrite (k : nat)        (* the k-th pending update, a role state update, runs up to the hand-over:
+                                 task.state and the role's own cache are written, the value is still
+                                 to be handed to the parent ([PFwd]) *)
+| AReply (i : nat) (v : state)(* a transition response of task i arrives (TaskStateMessage): late,
+                                 duplicated or unsolicited ones included *)
 | AWStart                     (* the watcher goroutine subscribes and reads the workflow state *)
 | AWSelect                    (* the watcher (re-)enters its select *)
 | AFire (oc : list outc)      (* the timer callback runs (oc: replies to its STOP command) *)
@@ -266,10 +330,7 @@ Definition do_begin (e : cev) (s : wsys) : wsys :=
 
 Definition do_finish (oc : list outc) (s : wsys) : wsys :=
   match w_flight s with
-  | Some e =>
-      if is_configure e && match target_pos s with [] => true | _ :: _ => false end
-      then s        (* CONFIGURE with nothing to command never returns (C02-a2): mutex kept *)
-      else finish_cmd true e oc (set_flight None s)
+  | Some e => finish_cmd true e oc (set_flight None s)
   | None => s
   end.
 
@@ -287,7 +348,11 @@ Definition do_istop (oc : list outc) (s : wsys) : wsys :=
 
 Definition do_wstart (s : wsys) : wsys :=
   match w_watch s with
-  | WNotStarted => set_watch (if state_beq (st_of (w_tree s)) ERROR then WGone else WStarting) s
+  | WNotStarted =>
+      (* repaired (fix C03-a): a workflow already in ERROR is fed to the loop like a notification
+         (timer armed at once); only a workflow that is DONE is not watched *)
+      set_watch (if state_beq (st_of (w_tree s)) ERROR then WTimer
+                 else if state_beq (st_of (w_tree s)) DONE then WGone else WStarting) s
   | _ => s
   end.
 
@@ -303,10 +368,22 @@ Definition do_upd (k : nat) (s : wsys) : wsys :=
   | None => s
   end.
 
+Definition do_leafwrite (k : nat) (s : wsys) : wsys :=
+  match nth_error (w_pend s) k with
+  | Some (PState i v) =>
+      leaf_write i v (set_tst (replace_nth i v (w_tst s)) (set_pend (replace_nth k (PFwd i v) (w_pend s)) s))
+  | Some (PRole i v) => leaf_write i v (set_pend (replace_nth k (PFwd i v) (w_pend s)) s)
+  | _ => s
+  end.
+
+Definition do_reply (i : nat) (v : state) (s : wsys) : wsys := add_pend [PState i v] s.
+
 Definition wstep (a : action) (s : wsys) : wsys :=
   match a with
   | AFault f => do_fault f s
   | AUpd k => do_upd k s
+  | ALeafWrite k => do_leafwrite k s
+  | AReply i v => do_reply i v s
   | AWStart => do_wstart s
   | AWSelect => do_wselect s
   | AFire oc => do_fire oc s
@@ -381,9 +458,16 @@ Definition wait_timer (oc : list outc) (s : wsys) : wsys :=
 Inductive sop :=
 | SCmd (e : cev) (oc : list outc)                 (* ControlEnvironment while nothing else happens *)
 | SFault (f : fault) (oc : list outc)             (* fault while idle, then more than 500 ms pass *)
-| SCmdFault (e : cev) (f : fault) (oc : list outc).
+| SCmdFault (e : cev) (f : fault) (oc : list outc)
                                                   (* fault injected inside a before_<e> hook of the
                                                      request, then the request goes on, then > 500 ms *)
+| SRace (v : nat) (late : state) (oc : list outc).
+                                                  (* terminal Mesos status of task v while idle; its
+                                                     state update is stopped right before the hand-over
+                                                     to the parent role (inside the role-event write), a
+                                                     late transition response of the same task (state
+                                                     [late]) is processed to the end, then the first
+                                                     update goes on; then > 500 ms *)
 
 Definition run_sop (o : sop) (s : wsys) : wsys :=
   let s := clear_log s in
@@ -395,6 +479,13 @@ Definition run_sop (o : sop) (s : wsys) : wsys :=
       if is_flying s1
       then wait_timer oc (settle (wstep (AFinish oc) (settle (wstep (AFault f) s1))))
       else s1
+  | SRace v late oc =>
+      (* pending after the fault: [PState v ERROR; PStatus v INACTIVE] (nothing else is pending
+         between two steps of a script) *)
+      let s1 := wstep (ALeafWrite 0) (wstep (AFault (FDead [v])) s) in
+      let s2 := wstep AWSelect (wstep (AUpd 1) s1) in                 (* the status update *)
+      let s3 := wstep AWSelect (wstep (AUpd 1) (wstep (AReply v late) s2)) in   (* the late reply, to its end *)
+      wait_timer oc (settle s3)                                        (* the hand-over of ERROR *)
   end.
 
 (* what is observed of one step *)
@@ -486,10 +577,10 @@ Definition corr03 (c : c03_case) : bool := list_eqb wo_eqb (run_model3 (c3_in c)
    Violation classes (one per step; the case reports the one of highest priority):
     1  a critical task failed in a CONFIGURED / RUNNING environment (Mesos status, executor or agent
        lost, or internal error while RUNNING) and the environment did not end in ERROR
-    2  TASK_INTERNAL_ERROR of a non-critical task changed the environment state           (C03-c)
+    2  TASK_INTERNAL_ERROR of a non-critical task changed the environment state   (C03-c, repaired)
     3  a critical task failed before the watcher subscribed (inside an after_CONFIGURE hook of the
-       creation) and the environment stays CONFIGURED                                       (C03-a)
-    4  TASK_INTERNAL_ERROR of a critical task in a CONFIGURED environment is ignored       (C03-d)
+       creation) and the environment stays CONFIGURED                               (C03-a, repaired)
+    4  TASK_INTERNAL_ERROR of a critical task in a CONFIGURED environment is ignored (C03-d, repaired)
     5  the environment left RUNNING for ERROR and the end of the run is not recorded
        (run_end_time_ms empty or no run event of GO_ERROR / STOP_ACTIVITY)
     6  a task still RUNNING was not asked to stop when the environment went from RUNNING to ERROR
@@ -570,8 +661,7 @@ Definition mon_cmdfault (t : rtree) (paths : list path) (prev : N) (view : list 
               negb (N.eqb (wo_rend ob) 2 && has_runend_event (wo_runevs ob)) then 5 else 0)
         else if N.eqb (wo_state ob) 4 then 9 else 1
     | FInternal _ =>
-        (* handled only when the environment is RUNNING at that instant, i.e. inside a STOP request *)
-        if N.eqb prev 4 then (if N.eqb (wo_state ob) 5 then 0 else 1) else 0
+        if N.eqb (wo_state ob) 5 then 0 else if N.eqb prev 3 then 4 else 1
     end
   else
     if all_ack oc && other_crit_active_from 0 t paths vs view then
@@ -598,6 +688,7 @@ Fixpoint mon_ops3 (gone : bool) (t : rtree) (paths : list path) (prev : N) (view
              | SCmd _ _ => 0                         (* plain requests are C02's business *)
              | SFault f _ => mon_fault t paths prev view f ob
              | SCmdFault e f oc => mon_cmdfault t paths prev view e f oc ob
+             | SRace v _ _ => mon_fault t paths prev view (FDead [v]) ob
              end) :: mon_ops3 gone t paths (wo_state ob) (wo_tasks ob) ops' obs'
       end
   end.
@@ -635,7 +726,8 @@ Definition mon03 (c : c03_case) : N := pick03 (mon_codes3 c).
 (* bit set: 1 a fault before the subscription, 2 an idle fault of a critical task, 4 of a non-critical
    task, 8 a fault inside a request, 16 TASK_INTERNAL_ERROR, 32 several victims (agent), 64 the
    watcher took the ERROR (timer armed), 128 the timer's GO_ERROR left RUNNING, 256 STOP sent by the
-   watcher, 512 a plain request, 1024 the model's environment ends in ERROR, 2048 nested workflow *)
+   watcher, 512 a plain request, 1024 the model's environment ends in ERROR, 2048 nested workflow, 4096 a failure whose hand-over
+   to the parent role is overtaken by another update of the same task *)
 Definition tag_fault (t : rtree) (paths : list path) (f : fault) : N :=
   N.lor (match f with FInternal _ => 16 | FDead (_ :: _ :: _) => 32 | FDead _ => 0 end)
         (if any_crit t paths (fault_victims f) then 2 else 4).
@@ -650,6 +742,7 @@ Fixpoint tag_ops3 (ops : list sop) (s : wsys) : N :=
          | SCmd _ _ => 512
          | SFault f _ => tag_fault (w_tree s) (w_paths s) f
          | SCmdFault _ f _ => N.lor 8 (tag_fault (w_tree s) (w_paths s) f)
+         | SRace v _ _ => N.lor 4096 (tag_fault (w_tree s) (w_paths s) (FDead [v]))
          end)
         (N.lor (if wst_beq (w_watch s') WFired && negb (wst_beq (w_watch s) WFired) then 64 else 0)
                (N.lor (if memN 7 (log_runevs (w_log s')) then 128 else 0)
